@@ -74,7 +74,9 @@ CHECKS = {
             "rule and application submissions) model-checked by TLC for both roles until the reachable set closes: 13 action "
             "properties + ClosedImpliesReleased; five historic deviations shown to violate "
             "them; the dumped state graph covered by edge-covering tours on the real threaded node under a deterministic "
-            "scheduler (state machine thread advanced tick by tick), projection compared with TLC successors after every step",
+            "scheduler (state machine thread advanced tick by tick), projection compared with TLC successors after every step; "
+            "spec/Pair.tla composes a client and a server instance through two channels, is model-checked (agreement of the two "
+            "ends, both open, a stop closes both) and toured on two real nodes in one scheduler",
             "Every (state, event) group of the closed model (all 14 message values, local stop, peer disconnect, idle timeout, "
             "connect ack/nack, application submissions building a backlog, restart) is executed on a real Diameter object with all "
             "its threads.",
